@@ -435,7 +435,12 @@ func sameRoot(a, b ssa.Value) bool {
 func checkValidatorGates(e *Engine, r *Report, rule string, names []string, exempt map[string]string) int {
 	n := 0
 	for _, nm := range names {
-		f := r.need(nm)
+		var f *ssa.Function
+		if strings.HasPrefix(nm, "?") {
+			f = r.helper(nm[1:]) // a forwarding wrapper: optional
+		} else {
+			f = r.need(nm)
+		}
 		if f == nil {
 			continue
 		}
